@@ -527,6 +527,9 @@ func (c *simCluster) breakConn(k [2]uint64) {
 func (c *simCluster) monitors(n *simNode) {
 	r := n.r
 	id := r.nid
+	for _, a := range n.takeVoteAlarms() {
+		c.finding("C05", "vote-request-before-persist", a)
+	}
 	// C05: what the node believes about term and vote is what is on disk
 	if d := n.termFileMismatch(); d != "" {
 		c.finding("C05", "vote-not-durable", fmt.Sprintf("node %d: %s", id, d))
@@ -947,8 +950,16 @@ func (c *simCluster) candidateStep(n *simNode) {
 		vn := n.r.configs.Latest.Nodes[vid]
 		if vn.Voter && vid != id && !c.asked[id][vid] {
 			c.asked[id][vid] = true
-			q := &voteReq{req: req{n.r.term, id}, lastLogIndex: n.r.lastLogIndex, lastLogTerm: n.r.lastLogTerm, transfer: n.c.transfer}
-			c.net = append(c.net, &simMsg{from: id, to: vid, wire: wireReq(q, nil), kind: rpcVote, epoch: c.epoch[id],
+			// the request the candidate's goroutine really wrote; only if none arrives, one built from its state
+			wire, q := n.sentVote(vid, n.r.term)
+			if q == nil {
+				q = &voteReq{req: req{n.r.term, id}, lastLogIndex: n.r.lastLogIndex, lastLogTerm: n.r.lastLogTerm, transfer: n.c.transfer}
+				wire = wireReq(q, nil)
+				c.w.dist["voteReq/synthesized"]++
+			} else {
+				c.w.dist["voteReq/captured"]++
+			}
+			c.net = append(c.net, &simMsg{from: id, to: vid, wire: wire, kind: rpcVote, epoch: c.epoch[id],
 				lit: "(EVoteReq " + coqVoteReq(q) + ")"})
 			c.note("n%d asks n%d for vote t%d", id, vid, n.r.term)
 			return
